@@ -121,7 +121,9 @@ pub fn gen(seed: u64) -> Replay {
                     }
                     continue;
                 }
-                let ptr = match rng.below(10) {
+                let ptr = match rng.below(11) {
+                    // the structure would run past the end (or start) of the address space
+                    10 => if rng.chance(70) { u64::MAX - rng.below(0x70) } else { rng.below(0x70) },
                     0 | 1 => 1u64 << rng.below(64),
                     2 | 3 => !(1u64 << rng.below(64)),
                     4 => *rng.pick(&[0u64, u64::MAX, 0x0000_7fff_ffff_ffff, 0xffff_8000_0000_0000, 0x0000_8000_0000_0000, 0xffff_7fff_ffff_ffff, 0x0000_0000_ffff_ffff, 0x0000_0001_0000_0000, 0x0000_0000_00ff_ffff, 0x0000_0000_0100_0000]),
